@@ -13,12 +13,14 @@
           (exact equality when `==` identifies only identical values), `mirror_witness` (the exact
           statement is FALSE of the code for Python's `==`: `True == 1`; finding C17/F1),
           and the keep/remove table as one-step lemmas.
-  Part II (gate): for every interleaving of the labelled transition system of the start-up gate —
-          `gate_safe`, `pass_safe`, and witnesses that three broken variants violate it.
+  Part II (gate): for every interleaving of the labelled transition system of the gate, with any
+          number of `spawn_missing_watchers` batches — `gate_safe`, `pass_safe`, `detach_safe`,
+          `ungated_only_after_ready`, `gate_can_open` (from every reachable state the gate can open:
+          no deadlock), and witnesses that three broken variants violate safety.
 -/
 import Kopf.Base.J
 import Kopf.Lemmas.C17_Mirror
-import Kopf.Lemmas.C17_Gate
+import Kopf.Lemmas.C17_GateLive
 namespace Kopf.C17
 
 section Index
@@ -300,18 +302,20 @@ theorem inv_of_reach {s : GState R O} (h : Reach s) : Inv s := by
   obtain ⟨ls, hls⟩ := h
   exact run_inv ls inv_init hls
 
-/-- **Gate safety.** In every reachable state — i.e. for every interleaving of the orchestrator,
-    the watchers' listings and the workers — if some worker has reached the handlers
-    (`process_resource_causes`: change handlers, daemons, timers), then the start-up batch is
-    complete, every indexed kind has delivered `LISTED`, and every object of those initial listings
-    has been through `index_resource`. -/
-theorem gate_safe {s : GState R O} (h : Reach s) (hh : s.handled = true) : Ready s := by
+/-- **Gate safety.** In every reachable state — i.e. for every interleaving of the orchestrator
+    (any number of `spawn_missing_watchers` batches), the watchers' listings and the workers — if
+    some worker has reached the handlers (`process_resource_causes`: change handlers, daemons,
+    timers), then the start-up batch is complete, every indexed kind of it has delivered `LISTED`,
+    and every object of those initial listings has been through `index_resource`. -/
+theorem gate_safe {s : GState R O} (h : Reach s) (hh : s.handled = true) : Ready1 s := by
   have hi := inv_of_reach h
   cases he : s.everOn with
   | true => exact hi.b he
   | false => have := (hi.a he).1; simp [hh] at this
 
-/-- The same at the very moment `wait_for(True)` returns to any waiter. -/
+/-- At the very moment `wait_for(True)` returns to any waiter, *every* kind spawned so far (also
+    those of later batches) is listed, no batch is in progress, and every object that arrived
+    before its kind's LISTED is indexed. -/
 theorem pass_safe {s s' : GState R O} (h : Reach s) (r : R) (o : O)
     (hp : step .none s (.pass r o) = some s') : Ready s := by
   have hi := inv_of_reach h
@@ -324,74 +328,104 @@ theorem pass_safe {s s' : GState R O} (h : Reach s) (r : R) (o : O)
     · rename_i hg; exact ready_of_isOn hi hg.2
     · cases hp
 
-/-- … and whenever a watcher stops gating its workers (`operator_indexed = None`). -/
-theorem detach_safe {s : GState R O} (h : Reach s) (r : R) (hd : r ∈ s.detached) : Ready s := by
+/-- … and at the moment a watcher stops gating its workers (`operator_indexed = None`). -/
+theorem detach_safe {s s' : GState R O} (h : Reach s) (r : R) (o : O)
+    (hp : step .none s (.check r o true) = some s') : Ready s := by
   have hi := inv_of_reach h
-  exact hi.b (hi.c4 r hd)
+  simp only [step] at hp
+  cases hsp : aget r s.spawned with
+  | none => simp [hsp] at hp
+  | some ind =>
+    simp only [hsp] at hp
+    split at hp
+    · rename_i hg
+      exact ready_of_isOn hi (by rw [← hg.2.1])
+    · cases hp
 
-/-- Workers that run ungated exist only after the gate has been seen open. -/
+/-- Workers that run ungated exist only after the start-up index was complete. -/
 theorem ungated_only_after_ready {s : GState R O} (h : Reach s) (ro : R × O) (w : Worker)
-    (hw : s.workers ro = some w) (hg : w.gated = false) : Ready s := by
+    (hw : s.workers ro = some w) (hg : w.gated = false) : Ready1 s := by
   have hi := inv_of_reach h
   cases he : s.everOn with
   | true => exact hi.b he
   | false => have := ((hi.a he).2 ro w hw).1; simp [hg] at this
 
+/-- **The gate can always open (no deadlock).** From every reachable state there is a
+    continuation — the pending spawns, the toggles of watchers caught between `is_on()` and
+    `make_toggle`, the outstanding LISTEDs, and each started `index_resource` returning — after
+    which the set is on and every worker is past the gate. (Possibility, not fairness: it assumes
+    every started `index_resource` call can return and every listing can finish; finding C17-F3
+    is a real way for a call never to "return" in this sense.) -/
+theorem gate_can_open {s : GState R O} (h : Reach s) :
+    ∃ ls s', run .none s ls = some s' ∧ Open s' := by
+  obtain ⟨ls0, hls0⟩ := h
+  exact can_open_aux (mu s) s (Nat.le_refl _) (run_inv ls0 inv_init hls0)
+    (run_pinv ls0 inv_init pinv_init hls0)
+
 end
 
-/-! #### non-vacuity: the gate does open on a real start-up, and broken variants violate `Ready` -/
+/-! #### non-vacuity: the gate does open on a real start-up, and broken variants violate `Ready1` -/
 
-/-- two indexed kinds and one plain kind; objects 7, 8 of kind 1 and 9 of kind 2; staggered LISTED -/
+/-- two indexed kinds and one plain kind; objects 7, 8 of kind 1 and 9 of kind 2; staggered LISTED;
+    then a second batch with kind 4 while the detached watcher of kind 1 keeps handling -/
 private def goodTrace : List (Label Nat Nat) :=
-  [ .spawnBegin [(1, true), (2, true), (3, false)], .spawn 1, .check 1 false, .arrive 1 7 true true,
-    .spawn 2, .listed 1, .spawn 3, .spawnEnd, .index 1 7, .drop 1 7, .check 3 false, .arrive 3 5 true false,
-    .check 2 false, .arrive 2 9 true true, .index 3 5, .drop 3 5, .index 2 9, .listed 2,
-    .check 2 false,                                   -- a late object of kind 2: sees the set off …
+  [ .spawnBegin [(1, true), (2, true), (3, false)], .spawn 1, .check 1 7 false, .arrive 1 7 true true,
+    .spawn 2, .listed 1, .spawn 3, .spawnEnd, .index 1 7, .drop 1 7, .check 3 5 false, .arrive 3 5 true false,
+    .check 2 9 false, .arrive 2 9 true true, .index 3 5, .drop 3 5, .index 2 9, .listed 2,
+    .check 2 6 false,                                 -- a late object of kind 2: sees the set off …
     .drop 2 9, .pass 1 7, .handle 1 7, .pass 3 5,      -- … the gate opens meanwhile, handlers start …
     .arrive 2 6 true true,                            -- … and only now is its toggle added (closes again)
-    .check 1 false, .arrive 1 4 true true, .index 1 4, .drop 1 4,
+    .check 1 4 false, .arrive 1 4 true true, .index 1 4, .drop 1 4,
     .index 2 6, .drop 2 6, .pass 1 4,
-    .check 1 true, .arrive 1 8 false false, .index 1 8, .skip 1 8, .handle 1 8,
-    .finish 1 7, .again 1 7, .index 1 7, .drop 1 7, .pass 1 7, .handle 1 7, .finish 1 7 ]
+    .check 1 8 true, .arrive 1 8 false false, .index 1 8, .skip 1 8, .handle 1 8,
+    .finish 1 7, .again 1 7, .index 1 7, .drop 1 7, .pass 1 7, .handle 1 7, .finish 1 7,
+    .spawnBegin [(4, true)], .spawn 4,                -- a kind discovered later: a second batch
+    .finish 1 8, .again 1 8, .index 1 8, .skip 1 8, .handle 1 8,   -- the detached watcher's worker goes on
+    .check 2 3 false, .arrive 2 3 true true, .index 2 3, .drop 2 3, -- kind 2 (still gating) waits for kind 4
+    .spawnEnd, .check 4 1 false, .arrive 4 1 true true, .listed 4, .index 4 1, .drop 4 1, .pass 2 3, .pass 4 1 ]
 
-example : (run .none GState.init goodTrace).map (fun s => (s.handled, readyB s)) = some (true, true) := by
+example : (run .none GState.init goodTrace).map (fun s => (s.handled, readyB s, ready1B s)) = some (true, true, true) := by
   decide
+
+/-- in the middle of the second batch: handlers run (`Ready1`) although not every kind is listed (`¬Ready`) -/
+example : (run .none GState.init (goodTrace.take 55)).map (fun s => (s.handled, readyB s, ready1B s))
+    = some (true, false, true) := by decide
 
 /-- the gate refuses to let a waiter pass while a kind is still listing -/
 example : (run .none GState.init
     [ .spawnBegin [(1, true), (2, true)], .spawn 1, .spawn 2, .spawnEnd, .listed 1,
-      .check 2 false, .arrive 2 9 true true, .index 2 9, .drop 2 9, .pass 2 9 ] : Option (GState Nat Nat)).isNone = true := by
+      .check 2 9 false, .arrive 2 9 true true, .index 2 9, .drop 2 9, .pass 2 9 ] : Option (GState Nat Nat)).isNone = true := by
   decide
 
 /-- Without the orchestration blocker a worker reaches the handlers while kind 2 has no toggle yet. -/
 theorem noBlocker_witness : ∃ (ls : List (Label Nat Nat)) (s : GState Nat Nat),
-    run .noBlocker GState.init ls = some s ∧ s.handled = true ∧ ¬ Ready s := by
-  refine ⟨[ .spawnBegin [(1, true), (2, true)], .spawn 1, .check 1 false, .arrive 1 7 true true, .listed 1,
+    run .noBlocker GState.init ls = some s ∧ s.handled = true ∧ ¬ Ready1 s := by
+  refine ⟨[ .spawnBegin [(1, true), (2, true)], .spawn 1, .check 1 7 false, .arrive 1 7 true true, .listed 1,
             .index 1 7, .drop 1 7, .pass 1 7, .handle 1 7 ], _, rfl, by decide, ?_⟩
   intro h
-  have := h.2.1
+  have := h.1
   revert this
   decide
 
 /-- If the per-kind toggle is not held until LISTED, handlers start before the kind is listed. -/
 theorem noKindToggle_witness : ∃ (ls : List (Label Nat Nat)) (s : GState Nat Nat),
-    run .noKindToggle GState.init ls = some s ∧ s.handled = true ∧ ¬ Ready s := by
-  refine ⟨[ .spawnBegin [(1, true), (2, true)], .spawn 1, .spawn 2, .spawnEnd, .check 1 true,
+    run .noKindToggle GState.init ls = some s ∧ s.handled = true ∧ ¬ Ready1 s := by
+  refine ⟨[ .spawnBegin [(1, true), (2, true)], .spawn 1, .spawn 2, .spawnEnd, .check 1 7 true,
             .arrive 1 7 false false, .index 1 7, .skip 1 7, .handle 1 7 ], _, rfl, by decide, ?_⟩
   intro h
-  have := h.2.2.2.1 2 (by decide)
+  have := h.2.1 2 (by decide)
   revert this
   decide
 
 /-- If the per-object toggle is dropped before `index_resource`, handlers of another object start
     while a listed object is not indexed yet. -/
 theorem dropBeforeIndex_witness : ∃ (ls : List (Label Nat Nat)) (s : GState Nat Nat),
-    run .dropBeforeIndex GState.init ls = some s ∧ s.handled = true ∧ ¬ Ready s := by
-  refine ⟨[ .spawnBegin [(1, true)], .spawn 1, .spawnEnd, .check 1 false, .arrive 1 7 true true,
-            .check 1 false, .arrive 1 8 true true,
+    run .dropBeforeIndex GState.init ls = some s ∧ s.handled = true ∧ ¬ Ready1 s := by
+  refine ⟨[ .spawnBegin [(1, true)], .spawn 1, .spawnEnd, .check 1 7 false, .arrive 1 7 true true,
+            .check 1 8 false, .arrive 1 8 true true,
             .listed 1, .drop 1 7, .index 1 8, .drop 1 8, .pass 1 8, .handle 1 8 ], _, rfl, by decide, ?_⟩
   intro h
-  have := h.2.2.2.2 (1, 7) (by decide)
+  have := h.2.2 (1, 7) (by decide) (by decide)
   revert this
   decide
 
